@@ -6,7 +6,7 @@ use proptest::collection::vec;
 use proptest::prelude::*;
 
 use crate::build::build;
-use crate::gen::{concretize_repls, normalize, repls_for, tree, GenCfg};
+use crate::gen::{abs_repl, concretize_repls, normalize, repls_for, tree, GenCfg};
 use crate::model::replace_attr::model_replace;
 use crate::observe::{attr_from_map, guard, line_only_full, opts, positions, AttrFull};
 use crate::props::common::*;
@@ -21,11 +21,23 @@ fn child_cfg() -> GenCfg {
 
 fn strategy() -> BoxedStrategy<TreeCase> {
   let cfg = child_cfg();
+  let small = GenCfg { depth: 1, max_tokens: 3, ..cfg };
   prop_oneof![
-    (0u8..3u8, vec(tree(cfg), 2..=4)).prop_map(move |(how, children)| TreeCase {
+    10 => (0u8..3u8, vec(tree(cfg), 2..=4)).prop_map(move |(how, children)| TreeCase {
       spec: normalize(Spec::Concat { how, children }, cfg)
     }),
-    (tree(cfg), repls_for(cfg, 4)).prop_map(move |(inner, (pool, abs))| {
+    10 => (tree(cfg), repls_for(cfg, 4)).prop_map(move |(inner, (pool, abs))| {
+      let t = model_text(&inner);
+      let repls = concretize_repls(&t, &pool, &abs, false);
+      TreeCase { spec: normalize(Spec::Replace { inner: Box::new(inner), repls }, cfg) }
+    }),
+    // counts the two shapes above never reach: a root over 9-40 children, and a root with 33-80 replacements over at
+    // most six cut points (many replacements tie on (start, end, enforce) and differ in name and content: registration
+    // order decides, and only a stable sort keeps it beyond a few dozen elements)
+    1 => (0u8..5u8, vec(tree(small), 9..=40)).prop_map(move |(how, children)| TreeCase {
+      spec: normalize(Spec::Concat { how, children }, cfg)
+    }),
+    1 => (tree(cfg), vec(any::<u16>(), 1..=6), vec(abs_repl(cfg), 33..=80)).prop_map(move |(inner, pool, abs)| {
       let t = model_text(&inner);
       let repls = concretize_repls(&t, &pool, &abs, false);
       TreeCase { spec: normalize(Spec::Replace { inner: Box::new(inner), repls }, cfg) }
@@ -54,7 +66,7 @@ impl Prop for C06 {
   type Case = TreeCase;
   const ID: &'static str = "C06";
   fn rule(&self) -> String {
-    "root is a ConcatSource over 2-4 children or a ReplaceSource with 0-4 replacements; children / inner are ASCII \
+    "root is a ConcatSource over 2-4 (one case in 22: 9-40) children or a ReplaceSource with 0-4 (one case in 22: 33-80, over <= 6 cut points) replacements; children / inner are ASCII \
      trees of depth<=2 from gen::tree(positional) (SourceMapSource leaves with 1-3 sources, 0-3 names incl. duplicate \
      names, with/without sourcesContent, with inner maps that announce lazily). Concat: per byte of child k, \
      resolve(concat.map()) == resolve(child_k.map()) on (file, content, line, col, name); Replace: per byte against the \
